@@ -47,7 +47,7 @@ Theorem C17_points_exact : forall sp sel yv k,
           combine (s_pts (one_series sp sel yv k)) es
           = filter (fun t => both_finite (fst t))
                    (combine (pairs xs ys) (column (p_ds sp) ev sel (free_dims sp sel yv))))
-  /\ (forall cv, p_cmode sp = CPoints cv ->
+  /\ (forall cv lo hi, p_cmode sp = CPoints cv lo hi ->
         exists cs, s_c (one_series sp sel yv k) = Some cs /\
           combine (s_pts (one_series sp sel yv k)) cs
           = filter (fun t => both_finite (fst t))
@@ -61,7 +61,7 @@ Proof.
     apply (companion_aligned xs ys).
   - intros ev He. unfold one_series. cbn [s_xe s_pts]. rewrite He. eexists. split; [reflexivity|].
     apply (companion_aligned xs ys).
-  - intros cv Hc. unfold one_series. cbn [s_c s_pts]. rewrite Hc. eexists. split; [reflexivity|].
+  - intros cv lo hi Hc. unfold one_series. cbn [s_c s_pts]. rewrite Hc. eexists. split; [reflexivity|].
     apply (companion_aligned xs ys).
 Qed.
 
@@ -190,26 +190,39 @@ Theorem C17_series_color_from_z : forall sp sel zd k zv lo hi,
             (lut_index (p_N sp) (norm_lo (p_ds sp) zd lo) (norm_hi (p_ds sp) zd hi) zv)).
 Proof. intros sp sel zd k zv lo hi Hz Hm Hg. unfold series_color. now rewrite Hm, Hz, Hg. Qed.
 
-(* ------------------------------------------------------------------ the code deviates *)
-(* scatter(c=<variable>): matplotlib scales every collection to its own range because no norm
-   is passed, so a point's colour is NOT the colour map at the value normalised over the
-   dataset (what the colour bar shows).  Witness: two series over c = 1,2 and c = 2,3. *)
+(* scatter(c=<variable>): every point is coloured on the one scale the colour bar shows (user
+   limits, else the range of the whole variable), whatever series it belongs to *)
+Theorem C17_scatter_c_scale : forall sp sel yv k cv lo hi,
+  p_cmode sp = CPoints cv lo hi ->
+  exists cs, s_c (one_series sp sel yv k) = Some cs /\
+    s_ccol (one_series sp sel yv k)
+    = Some (map (fun c => match c with
+                          | Fin i => canon_at (p_canon sp)
+                                       (lut_index (p_N sp) (norm_lo (p_ds sp) cv lo) (norm_hi (p_ds sp) cv hi) i)
+                          | NonFin => canon_at (p_canon sp) (lut_bad (p_N sp)) end) cs).
+Proof.
+  intros sp sel yv k cv lo hi Hc. unfold one_series. cbn [s_c s_ccol]. rewrite Hc. cbn [cpoint_var option_map].
+  eexists. split; [reflexivity|]. unfold point_colors. rewrite Hc. reflexivity.
+Qed.
+
+(* ------------------------------------------------------------------ the code before the repair *)
+(* Until the fix "hand the colour norm to Axes.scatter" no norm was passed and matplotlib scaled
+   every collection to its own range (point_colors_old): a point's colour was NOT the colour map
+   at the value normalised over the dataset.  Witness: two series over c = 1,2 and c = 3,4. *)
 Definition ident_canon : list Z := zseq 0 259.
 Definition ex_scatter : spec :=
   mkspec (mkds [(1, 2%nat); (2, 2%nat)]
                [(1, mkvar [1] [Fin 10; Fin 20]); (2, mkvar [2] [Fin 5; Fin 6]);
                 (3, mkvar [2; 1] (cells [101; 102; 103; 104]));
                 (4, mkvar [2; 1] (cells [1; 2; 3; 4]))])
-         1 [3] false (Some 2) None None [str "5"; str "6"] (CPoints 4) 256 ident_canon
+         1 [3] false (Some 2) None None [str "5"; str "6"] (CPoints 4 None None) 256 ident_canon
          None None (str "") (str "") [] [].
-Theorem C17_scatter_c_scale_refuted :
+Theorem C17_scatter_c_scale_refuted_old :
   exists sp s cs, nth_error (z_series sp []) 0 = Some s /\ s_c s = Some cs /\
-    s_ccol s <> Some (map (fun c => match c with
-                                    | Fin i => lut_index 256 (norm_lo (p_ds sp) 4 None) (norm_hi (p_ds sp) 4 None) i
-                                    | NonFin => lut_bad 256 end) cs).
+    s_ccol s = Some (point_colors sp cs) /\ point_colors_old sp cs <> point_colors sp cs.
 Proof.
   exists ex_scatter. eexists. eexists. split; [vm_compute; reflexivity|]. split; [reflexivity|].
-  vm_compute. discriminate.
+  split; [reflexivity|]. vm_compute. discriminate.
 Qed.
 
 (* ------------------------------------------------------------------ non-vacuity *)
@@ -271,4 +284,5 @@ Print Assumptions C17_panel_of_slice.
 Print Assumptions C17_color_index_monotone.
 Print Assumptions C17_color_index_endpoints.
 Print Assumptions C17_series_color_from_z.
-Print Assumptions C17_scatter_c_scale_refuted.
+Print Assumptions C17_scatter_c_scale.
+Print Assumptions C17_scatter_c_scale_refuted_old.
